@@ -314,6 +314,7 @@ type c41Step struct {
 	after  *c41Board // nil when refused
 	textAfterCall string // d2format.Format(g.AST) of the INPUT graph after the call
 	next   string
+	kf     []string
 }
 
 func c41ErrClass(err error) string {
@@ -341,6 +342,7 @@ func c41RunStep(g *d2graph.Graph, board []string, op *c37Op) *c41Step {
 	st := &c41Step{board: board, op: op}
 	st.text = d2format.Format(g.AST)
 	st.before = c41ProjectAll(g)
+	st.kf = c41KFBefore(g, board, op)
 	st.res = c37Apply(g, board, op)
 	st.next = st.text
 	if st.res.tmo || st.res.panic != "" {
@@ -390,8 +392,135 @@ func c41History(r *Rng, text string, steps int, emit func(st *c41Step, s int) bo
 
 // ---------------------------------------------------------------- known findings
 
-func c41KF(st *c41Step) []string {
+// c41KeysIn collects the key nodes written inside a board's own AST map.
+func c41KeysIn(m *d2ast.Map, acc map[*d2ast.Key]bool) {
+	if m == nil {
+		return
+	}
+	for _, n := range m.Nodes {
+		if n.MapKey != nil {
+			acc[n.MapKey] = true
+			c41KeysIn(n.MapKey.Value.Map, acc)
+		}
+	}
+}
+
+func c41AttrScalar(a *d2graph.Attributes, key string) *d2graph.Scalar {
+	switch key {
+	case "label":
+		return &a.Label
+	case "shape":
+		return &a.Shape
+	case "tooltip":
+		return a.Tooltip
+	case "link":
+		return a.Link
+	case "width":
+		return a.WidthAttr
+	case "height":
+		return a.HeightAttr
+	case "style.fill":
+		return a.Style.Fill
+	case "style.stroke":
+		return a.Style.Stroke
+	case "style.opacity":
+		return a.Style.Opacity
+	case "style.animated":
+		return a.Style.Animated
+	case "style.stroke-dash":
+		return a.Style.StrokeDash
+	case "style.stroke-width":
+		return a.Style.StrokeWidth
+	case "style.border-radius":
+		return a.Style.BorderRadius
+	case "style.shadow":
+		return a.Style.Shadow
+	case "style.3d":
+		return a.Style.ThreeDee
+	case "style.multiple":
+		return a.Style.Multiple
+	case "style.double-border":
+		return a.Style.DoubleBorder
+	case "style.font":
+		return a.Style.Font
+	case "style.font-size":
+		return a.Style.FontSize
+	case "style.font-color":
+		return a.Style.FontColor
+	case "style.bold":
+		return a.Style.Bold
+	case "style.italic":
+		return a.Style.Italic
+	case "style.underline":
+		return a.Style.Underline
+	case "style.fill-pattern":
+		return a.Style.FillPattern
+	case "style.text-transform":
+		return a.Style.TextTransform
+	}
 	return nil
+}
+
+// c41KFBefore: signatures of the recorded defects, decided on the input (graph before + board + operation).
+func c41KFBefore(g *d2graph.Graph, board []string, op *c37Op) []string {
+	if len(board) == 0 {
+		return nil
+	}
+	boardG := d2oracle.GetBoardGraph(g, board)
+	if boardG == nil || boardG.BaseAST == nil {
+		return nil
+	}
+	base := boardG.BaseAST
+	inBoard := map[*d2ast.Key]bool{}
+	c41KeysIn(base, inBoard)
+	objOutside := func(o *d2graph.Object) bool { // the object is (also) declared outside the board
+		for _, ref := range o.References {
+			if !ref.InEdge() && ref.ScopeAST != base {
+				return true
+			}
+		}
+		return false
+	}
+	edgeOutside := func(e *d2graph.Edge) bool {
+		for _, ref := range e.References {
+			if ref.ScopeAST != base {
+				return true
+			}
+		}
+		return false
+	}
+	var kf []string
+	switch op.Kind {
+	case "delobjattr":
+		if op.g12 != nil && op.g12.tgt != nil && objOutside(op.g12.tgt.obj) {
+			kf = append(kf, "C41-delete-attribute-edits-base-board")
+		}
+	case "deledgeattr":
+		if op.g12 != nil && op.g12.tedge != nil && edgeOutside(op.g12.tedge.edge) {
+			kf = append(kf, "C41-delete-attribute-edits-base-board")
+		}
+	case "set-obj":
+		if sc := c41AttrScalar(&op.tgt.obj.Attributes, op.attr); sc != nil && sc.MapKey != nil && !inBoard[sc.MapKey] {
+			kf = append(kf, "C41-set-inherited-value-edits-base-board")
+		}
+	case "set-edge":
+		if sc := c41AttrScalar(&op.tedge.edge.Attributes, op.attr); sc != nil && sc.MapKey != nil && !inBoard[sc.MapKey] {
+			kf = append(kf, "C41-set-inherited-value-edits-base-board")
+		}
+	case "move":
+		if op.g12 != nil && op.g12.dest != nil && objOutside(op.g12.dest.obj) {
+			kf = append(kf, "C41-move-into-inherited-container-edits-base-board")
+		}
+	}
+	return kf
+}
+
+func c41KF(st *c41Step) []string {
+	kf := append([]string{}, st.kf...)
+	if st.res.err != nil && c41ErrClass(st.res.err) == "recompile" {
+		kf = append(kf, "C41-compiler-refusal-leaves-input-modified")
+	}
+	return kf
 }
 
 func c41EditCase(st *c41Step, class string, s int) Case {
